@@ -268,9 +268,9 @@ Proof.
                 (scan_new (cf_fuel c) lo hi (ms_vis s) (map (fun m => (m, look_of s2 m)) (open_mems s)) (cur_levels s2))])) cid = find_scan s cid) as H.
     { intros s3 E3. unfold find_scan. cbn [ms_scans set_scans]. rewrite E3. apply find_scan_app. cbn [sc_id]. exact Ha. }
     destruct (cf_holds_ver c).
-    + destruct (cf_cache c); apply H; [reflexivity|exact E2].
+    + destruct (cf_cache c); apply H; exact E2.
     + rewrite (find_scan_scans _ _ cid (proj1 (proj2 (proj2 (proj2 (proj2 (proj2 (proj2 (proj1 (vref_drop_frame _ _)))))))))).
-      destruct (cf_cache c); apply H; [reflexivity|exact E2].
+      destruct (cf_cache c); apply H; exact E2.
   - apply N.eqb_neq in Ha. destruct (find_scan s c') as [sc|]; [|reflexivity]. unfold do_step. cbv zeta.
     destruct (freed_any s (xmems (sc_x sc))); [reflexivity|].
     destruct (negb (forallb (openable s) _)); [reflexivity|]. cbn [fst].
